@@ -16,6 +16,7 @@ CONSTANTS
   Res = {"p1"}
   TopRes = {"p1"}
   Roa <- MCRoa1
+  AspaDefs <- NoAspa
   ParentOf <- Chain
   Ops = {"roll", "roa", "suspend"}
 CONSTANTS
